@@ -112,8 +112,12 @@ func encodeProcessorOptions(opt *ProcessorOptions) *internal.ProcessorOptions {
 	}
 
 	// Fill value can only be a number. Set it if available.
-	if v, ok := opt.FillValue.(float64); ok {
+	// (the grammar yields int64 for fill(5) and float64 for fill(5.0))
+	switch v := opt.FillValue.(type) {
+	case float64:
 		pb.FillValue = v
+	case int64:
+		pb.FillValue = float64(v)
 	}
 
 	// Set condition, if set.
